@@ -438,18 +438,37 @@ def run_serial(setup_ops, programs, order):
         fixture.cleanup(root)
 
 
+class Observer:
+    """Stands in for `Client` in an unscheduled run: the seams only RECORD (client, call index, kind) in the order in
+    which the threads reach them (approximate: taken just before the block / read / file operation starts)."""
+
+    def __init__(self, idx, steps, lock, butler):
+        self.idx, self.steps, self.lock, self.butler = idx, steps, lock, butler
+        self.op_index = -1
+        self.last = None
+
+    def park(self, kind):
+        with self.lock:
+            self.steps.append([self.idx, self.op_index, kind])
+
+
 def run_free(setup_ops, programs):
-    """Unscheduled threads: real SQLite locking decides the interleaving (oracle only)."""
+    """Unscheduled threads: real SQLite locking decides the interleaving (oracle only); seams are recorded, not held."""
+    patch_process()
     root, slots = setup_repo(setup_ops)
     try:
         butlers = [open_client(root) for _ in programs]
         outs = [[] for _ in programs]
+        steps, lock = [], threading.Lock()
         barrier = threading.Barrier(len(programs))
 
         def main(i):
             own = []
+            ob = Observer(i, steps, lock, butlers[i])
+            _tls.client = ob
             barrier.wait()
-            for op in programs[i]:
+            for k, op in enumerate(programs[i]):
+                ob.op_index, ob.last = k, None
                 outs[i].append(run_op(butlers[i], op, slots, own))
         ths = [threading.Thread(target=main, args=(i,), daemon=True) for i in range(len(programs))]
         for t in ths:
@@ -458,9 +477,9 @@ def run_free(setup_ops, programs):
         for t in ths:
             t.join(max(0.1, STEP_TIMEOUT * 2 - (time.time() - t0)))
             if t.is_alive():
-                return {"outcomes": outs, "final": None, "hang": True}
+                return {"outcomes": outs, "final": None, "hang": True, "steps": list(steps)}
         butlers = None
-        return {"outcomes": outs, "final": final_state(root), "hang": False}
+        return {"outcomes": outs, "final": final_state(root), "hang": False, "steps": list(steps)}
     finally:
         fixture.cleanup(root)
 
